@@ -304,6 +304,33 @@ theorem all_commands_answered (C : Ops) (hC : C.Lawful) (handler : BmcReq → UI
       (fun e he q => by rw [hk]; exact hx e (by simp [he]) q)
     rw [hrec, hsend, hi]
 
+open Bmc.Spec Bmc.Proofs.C03 in
+/-- the session state `newV2Session` builds from a successful handshake: IDs, negotiated integrity algorithm, K1 for the
+    integrity hash and the first 16 bytes of K2 for AES (hasher.go, confidentiality.go) -/
+def sessionOf (l r : Nat) (i : UInt8) (k1 k2 : Bytes) : Sess :=
+  { localID := l, remoteID := r, integ := i.toNat, k1 := k1, k2 := k2.take 16 }
+
+open Bmc.Spec Bmc.Proofs.C03 in
+/-- C01 END TO END: open a session against the conforming BMC holding the same credentials (`handshake_succeeds`), then
+    issue ANY sequence of well-posed commands: the handshake returns the session with the BMC's keys, and every command
+    is accepted by the BMC — which checks integrity and decrypts with ITS OWN K1 / K2 (`BmcSide.k1`, `k2`, derived from
+    the fields it received) — and answered to the caller with the BMC handler's completion code and data. -/
+theorem session_then_commands (C : Ops) (hC : C.Lawful) (o : Opts) (rm : Bytes) (b : Spec.BmcSide) (h : HashAlg)
+    (hauth : authHash o.auth = some h) (hinteg : o.integ = 1 ∨ o.integ = 2 ∨ o.integ = 4) (hconf : o.conf = 1)
+    (huser : o.user.length ≤ 16) (hpriv : o.priv.toNat < 16)
+    (hb : b.wf) (hpass : b.kuid = o.pass) (hkg : b.kg = o.kg) (hsid : b.sidc < 4294967296)
+    (handler : BmcReq → UInt8 × Bytes) (bseq : Nat) (cmds : List (Cmd × Bytes × Bytes)) (hbs : bseq + cmds.length < 4294967296)
+    (hx : ∀ e ∈ cmds, ∀ q : Nat,
+      Exchange C (sessionOf 1 b.sidc o.integ (b.k1 C h (received o rm)) (b.k2 C h (received o rm))).keys e.1 e.2.1 e.2.2
+        (handler ⟨q, e.1.fn, e.1.cmd, e.1.body, e.1.ent, e.1.lun, e.1.req⟩).1
+        (handler ⟨q, e.1.fn, e.1.cmd, e.1.body, e.1.ent, e.1.lun, e.1.req⟩).2) :
+    (newSession C o rm (honestScript C h o rm b)).2 =
+      .ok 1 b.sidc o.auth o.integ o.conf (b.sik C h (received o rm)) (b.k1 C h (received o rm)) (b.k2 C h (received o rm)) ∧
+    converse C handler (sessionOf 1 b.sidc o.integ (b.k1 C h (received o rm)) (b.k2 C h (received o rm))) bseq cmds =
+      answers handler 0 cmds :=
+  ⟨keys_agree C o rm b h hauth hinteg hconf huser hpriv hb hpass hkg (hfit_of_lawful C hC h),
+   all_commands_answered C hC handler _ (by show (0 : Nat) < 4294967296; omega) (by show (1 : Nat) < 4294967296; omega) hsid bseq cmds hbs hx⟩
+
 /-- non-vacuity: two commands (Get Device ID, then Get Chassis Status) against a BMC whose handler answers 00 + the
     command number, under the toy crypto: the caller receives exactly that, for both -/
 example :
